@@ -41,11 +41,9 @@ Ltac witness C c :=
 Theorem refuted_out_of_range_value_not_written : exists C c i, mod_init C c = Created i /\ never_handed i = true.
 Proof. witness C1 cfg_oor. Qed.
 
-(* ---- a configured `default` written BEFORE a datatype override of the same Param: Module._add_accessible checks it
-   with the datatype as it is at that position of the dict (the class-level one), the override is applied afterwards and
-   Parameter.finish silently clears the default that no longer converts - module created, default (and with it the start
-   value) dropped, no error.  Param(default='abcdef', maxchars=3) on a StringType() parameter.
-   (The positional VALUE of a Param is not affected: config.Param puts it last, see C10_value_checked_against_configured_datatype.) *)
+(* ---- regression for the repaired finding C10/default-before-datatype-override (8b6cdcd): a configured `default` is
+   checked with the datatype as configured by ALL items of the same Param, whether it is written before or after the
+   override that decides about it.  The witness that used to be here (default silently dropped) is gone. *)
 Definition str0 : dtype := TString 0 unlimited false.
 Definition C3 : cls := {| c_params := [mkp "label" str0 false]; c_props := []; c_enablepoll := true |}.
 Definition abcdef : pyval := PStr (s_ "abcdef").
@@ -53,34 +51,22 @@ Definition cfg_default_first : cfg :=
   [descr; (s_ "label", CDict [(k_default, abcdef); (k_maxchars, PInt 3)])].
 Definition cfg_default_last : cfg :=
   [descr; (s_ "label", CDict [(k_maxchars, PInt 3); (k_default, abcdef)])].
-
-(* some Param entry of the configuration has a `default` which is no value of the datatype the instance ends up with,
-   and the instance has no default and no value for that parameter *)
-Definition default_dropped (c : cfg) (i : inst) : bool :=
-  existsb (fun kc => match snd kc with
-                     | CDict en =>
-                         match assoc_str k_default en, find_param (fst kc) (i_params i) with
-                         | Some v, Some p' =>
-                             match p_dt p' with
-                             | Some d' => match conv d' v with Err _ => true | Ok _ => false end
-                                          && nilb (match p_default p' with Some x => [x] | None => [] end)
-                                          && nilb (match p_value p' with Some x => [x] | None => [] end)
-                             | None => false
-                             end
-                         | _, _ => false
-                         end
-                     | CRaw _ => false
-                     end) c.
-
-Theorem refuted_default_before_datatype_override :
-  exists C c i, mod_init C c = Created i /\ default_dropped c i = true.
-Proof.
-  assert (H : match mod_init C3 cfg_default_first with Created i => default_dropped cfg_default_first i | _ => false end = true)
-    by (vm_compute; reflexivity).
-  destruct (mod_init C3 cfg_default_first) as [i| |] eqn:E; try discriminate.
-  exists C3, cfg_default_first, i. split; [exact E|exact H].
-Qed.
-(* the same two items in the other order are rejected *)
-Example default_after_override_rejected :
-  match mod_init C3 cfg_default_last with Rejected [ErrBadValue _ _] => true | _ => false end = true.
+Definition is_default_error (o : outcome) : bool :=
+  match o with Rejected [ErrBadValue n k] => str_eqb n (s_ "label") && str_eqb k k_default | _ => false end.
+Example default_rejected_in_either_order :
+  is_default_error (mod_init C3 cfg_default_first) && is_default_error (mod_init C3 cfg_default_last) = true.
+Proof. vm_compute. reflexivity. Qed.
+(* Param(default='\181m', isUTF8=True) and Param(isUTF8=True, default='\181m') are both applied *)
+Definition um : pyval := PStr [181%N; 109%N].
+Example utf8_default_applied_in_either_order :
+  match mod_init C3 [descr; (s_ "label", CDict [(k_default, um); (k_isutf8, PBool true)])],
+        mod_init C3 [descr; (s_ "label", CDict [(k_isutf8, PBool true); (k_default, um)])] with
+  | Created i1, Created i2 =>
+      match find_param (s_ "label") (i_params i1), find_param (s_ "label") (i_params i2) with
+      | Some p1, Some p2 => pv_same (match p_value p1 with Some x => x | None => PNone end) um
+                            && pv_same (match p_value p2 with Some x => x | None => PNone end) um
+      | _, _ => false
+      end
+  | _, _ => false
+  end = true.
 Proof. vm_compute. reflexivity. Qed.
